@@ -9,9 +9,11 @@ import ThriftVerif.Facts.ExpectCompile
 #print axioms ThriftVerif.Properties.C07.definition_order_irrelevant
 #print axioms ThriftVerif.Properties.C07.link_binds_spec
 #print axioms ThriftVerif.Properties.C07.link_refines_spec_partial
+#print axioms ThriftVerif.Properties.C07.root_answer_refines_spec
 #print axioms ThriftVerif.Properties.C07.link_parents_spec
 #print axioms ThriftVerif.Properties.C07.compileWith_prog
 #print axioms ThriftVerif.Properties.C07.roots_order_independent_partial
+#print axioms ThriftVerif.Properties.C07.root_answers_order_independent
 #print axioms ThriftVerif.Properties.C07.link_order_dependent
 #print axioms ThriftVerif.Properties.C07.acceptance_order_dependent
 #print axioms ThriftVerif.Properties.C07.enum_item_cast
